@@ -5,7 +5,7 @@
    generated case (paired run with a re-cased query, bit-identical answers). The CLI's whitespace
    normal form is C14's validate_idempotent / validate_clean. *)
 From Coq Require Import List ZArith NArith Bool Floats.
-From WTF Require Import Model.Validate Model.Text Model.Platform Model.Engine Proofs.EngineProofs.
+From WTF Require Import Model.Validate Model.Text Model.Platform Model.Engine Proofs.EngineProofs Proofs.WhitespaceProofs.
 From WTF Require Proofs.Corollaries.
 Import ListNotations.
 
@@ -18,5 +18,21 @@ Theorem search_case_invariant_partial : forall E cmds q q' o nl,
   lower_ascii q = lower_ascii q' -> search_universal E cmds q o nl = search_universal E cmds q' o nl.
 Proof. exact Corollaries.search_same_lower. Qed.
 
+(* the CLI's whitespace normal form (what ValidateQuery hands to the engine: Model/Validate.norm over the cleaned runes)
+   does not see leading, trailing or repeated whitespace *)
+Theorem normal_form_ignores_leading_space : forall sp ts, forallb is_space sp = true -> norm false false (sp ++ ts) = norm false false ts.
+Proof. exact norm_leading. Qed.
+
+Theorem normal_form_ignores_trailing_space : forall sp ts, forallb is_space sp = true -> norm false false (ts ++ sp) = norm false false ts.
+Proof. exact norm_trailing. Qed.
+
+Theorem normal_form_ignores_repeated_space : forall a s1 s2 b,
+  forallb is_space s1 = true -> forallb is_space s2 = true -> s1 <> [] -> s2 <> [] ->
+  norm false false (a ++ s1 ++ b) = norm false false (a ++ s2 ++ b).
+Proof. exact norm_repeated. Qed.
+
 Print Assumptions tokenize_case_invariant.
 Print Assumptions search_case_invariant_partial.
+Print Assumptions normal_form_ignores_leading_space.
+Print Assumptions normal_form_ignores_trailing_space.
+Print Assumptions normal_form_ignores_repeated_space.
